@@ -744,8 +744,8 @@ pub fn step_adm(sim: &mut Sim, ctx: &mut Ctx, adm: &AdmSwarm) -> Option<Tx> {
                     ctx.world.fee_wallet,
                     *ctx.rng.pick(&[0u32, 10_000]),
                     *ctx.rng.pick(&[0u32, 5_000]),
-                    w(ctx.rng.below(30) as f64 / 1000.0),
-                    w(ctx.rng.below(100) as f64 / 1000.0),
+                    w(if ctx.rng.chance(1, 4) { 0.0 } else { ctx.rng.below(30) as f64 / 1000.0 }),
+                    w(if ctx.rng.chance(1, 4) { 0.0 } else { ctx.rng.below(100) as f64 / 1000.0 }),
                     w(*ctx.rng.pick(&[0.0, 0.03, 0.05, 0.1, 0.5])),
                 ),
             )
@@ -1328,10 +1328,20 @@ pub fn drill_kill_bank(sim: &mut Sim, ctx: &mut Ctx) {
         }
     }
     sim.apply(Event::Tx(Tx::one("user", ix::deposit(&x.keys, b_acc, borrower.authority, b_ta_x, c.max(1), None))));
+    // variant "near wipe": the borrower leaves a sliver (1/20 000 .. 1/1 000 000 of the deposits)
+    // unborrowed, so that the uninsured loss takes the deposit share value to a tiny positive
+    // number instead of zero and the bank lives on with it
+    let near_wipe = bystander_acc.is_none() && ctx.rng.chance(1, 4);
+    let borrow_amt = if near_wipe {
+        let div = *ctx.rng.pick(&[20_000u64, 100_000, 1_000_000]);
+        vault.saturating_sub((vault / div).max(1)).max(1)
+    } else {
+        vault
+    };
     let mut borrowed = false;
     for _ in 0..4 {
         let rm = crate::world::risk_metas(&sim.store, &b_acc, Some(y.keys.bank), None);
-        let out = sim.apply(Event::Tx(Tx::one("user", ix::borrow(&y.keys, b_acc, borrower.authority, b_ta_y, vault, rm))));
+        let out = sim.apply(Event::Tx(Tx::one("user", ix::borrow(&y.keys, b_acc, borrower.authority, b_ta_y, borrow_amt, rm))));
         if out.map(|o| o.ok()).unwrap_or(false) {
             borrowed = true;
             break;
@@ -1373,7 +1383,9 @@ pub fn drill_kill_bank(sim: &mut Sim, ctx: &mut Ctx) {
     }
     // half of the time no time passes at all, so that the bad debt equals the deposits EXACTLY
     // (the "at" case of the kill switch), otherwise a little interest makes it strictly larger
-    if ctx.rng.chance(1, 2) {
+    if near_wipe {
+        sim.stats.fault("drill_near_wipe");
+    } else if ctx.rng.chance(1, 2) {
         sim.apply(Event::Advance { dt: 5, dslot: 10, depoch: 0 });
     } else {
         sim.stats.fault("drill_kill_bank_exact_equality");
@@ -1413,6 +1425,33 @@ pub fn drill_kill_bank(sim: &mut Sim, ctx: &mut Ctx) {
     let killed = model::bank_of(&sim.store, &y.keys.bank)
         .map(|b| b.config.operational_state == BankOperationalState::KilledByBankruptcy)
         .unwrap_or(false);
+    if near_wipe && !killed {
+        // the surviving lender acts on a position whose share value is now tiny: partial
+        // withdrawals, a top-up, another withdrawal
+        if let Some(bank) = model::bank_of(&sim.store, &y.keys.bank) {
+            let asv: f64 = I80F48::from_le_bytes(bank.asset_share_value.value).to_num();
+            if asv > 0.0 && asv < 1e-3 {
+                sim.stats.fault("drill_near_wipe_tiny_share_value");
+            }
+        }
+        for k in 0..4u64 {
+            let left = token_balance(&sim.store, &y.keys.liquidity_vault);
+            let amt = match k {
+                0 => 1,
+                1 => (left / 2).max(1),
+                2 => (left / 3).max(1),
+                _ => left.saturating_sub(1).max(1),
+            };
+            let rm = crate::world::risk_metas(&sim.store, &l_acc, None, None);
+            sim.apply(Event::Tx(Tx::one("user", ix::withdraw(&y.keys, l_acc, lender.authority, l_ta, amt, None, rm))));
+            if sim.violated() && sim.stop_on_violation {
+                return;
+            }
+            if k == 1 {
+                sim.apply(Event::Tx(Tx::one("user", ix::deposit(&y.keys, l_acc, lender.authority, l_ta, (d / 1000).max(1), None))));
+            }
+        }
+    }
     if killed {
         sim.stats.fault("drill_bank_killed");
         // users now touch the killed bank: every one of these must be refused
